@@ -426,7 +426,50 @@ def t11_lsb(run, fx):
         run.anchor_missing(rule, "left_side_bearings rebuilt from glyf.records()")
 
 
+def t11_coll(run, fx):
+    rule = "T11-COLL"
+    run.rule(rule, "WOFF2 collection directory: CollectionHeader is version (UInt32), numFonts (255UInt16), then numFonts CollectionFontEntry records of "
+                   "numTables (255UInt16), flavor (UInt32), index[numTables] (255UInt16 each). Every read in Directory::read / FontEntry::read and "
+                   "their closures is one of these types - a table index is a variable-length 255UInt16, not a byte")
+    allowed = {"<woff2::collection::FontEntry as binary::read::ReadBinary>::read": ("PackedU16", "read_u32be"),
+               "<woff2::collection::Directory as binary::read::ReadBinary>::read": ("PackedU16", "read_u32be", "FontEntry")}
+    for path, ok in sorted(allowed.items()):
+        b = fx.body(path)
+        if b is None:
+            run.anchor_missing(rule, path)
+            continue
+        bad, n, packed_in_closure = [], 0, False
+        for fb in fx.family(b):
+            for bi, t in fb.calls():
+                p = t["callee"].get("path") or ""
+                if not p.startswith("binary::read::ReadCtxt::<'a>::"):
+                    continue
+                name = p.split("::")[-1]
+                if name in ("check", "check_version", "scope", "bytes_available"):
+                    continue
+                n += 1
+                ga = (t["callee"].get("args") or [""])[-1]
+                what = name if name.startswith("read_") and name not in ("read_dep",) and not ga else ga.split("::")[-1]
+                if name in ("read", "read_dep"):
+                    what = ga.split("::")[-1]
+                if not any(what == k or name == k for k in ok):
+                    bad.append("%s::<%s>" % (name, ga) if ga else name)
+                if fb.kind == "Closure" and what == "PackedU16":
+                    packed_in_closure = True
+        if bad:
+            run.fail(rule, "collection:%s" % path.split("::")[2].split(" ")[0], "%s reads %s: the collection directory consists of UInt32 and 255UInt16 values only" % (path, sorted(set(bad))),
+                     "%s:%s" % (b.file, b.line))
+        elif "FontEntry as" in path and not packed_in_closure:
+            run.fail(rule, "collection:FontEntry:indices", "%s does not read its table indices as 255UInt16 values one by one" % path, "%s:%s" % (b.file, b.line))
+        else:
+            run.ok(rule, "%s: %d reads, all UInt32 / 255UInt16" % (path.split(" as ")[0].lstrip("<"), n))
+
+
 def check(run, fx, tier, floors=True):
+    import speclayout
+    speclayout.rule_layouts(run, fx, "T11-LAYOUT", ["woff2"], floors)
+    if floors or fx.body("<woff2::collection::FontEntry as binary::read::ReadBinary>::read") is not None:
+        t11_coll(run, fx)
     if floors or fx.body("woff2::HmtxTableFlag::lsb_is_present") is not None:
         t11_hmtx(run, fx)
         t11_xmin(run, fx)
